@@ -2,7 +2,7 @@
     [kmip_marshal] / [kmip_unmarshal] (KmipCodec.v: the functions the correspondence check
     compares with ttlv.MarshalTTLV / ttlv.UnmarshalTTLV, both run at the fixed fuel FUEL),
     with hypotheses on the MESSAGE only.  Statements only; proofs in EncFuelProofs.v (fuel),
-    EncRangeProofs.v (ranges), KmipExec.v (assembly on the schema regenerated from /repo).
+    EncRangeProofs.v (ranges), DecFuelProofs.v (decoder fuel), KmipExec.v (assembly on the schema regenerated from /repo).
 
     Hypotheses of the round trip, all decidable on the message:
       - [conf_ty] (Roundtrip.v): the message is what a decoder reconstructs (right shape,
@@ -11,12 +11,20 @@
         written as (Integer / Bit mask int32, Long Integer / Date-Time int64, Enumeration /
         Interval uint32 - so never a negative interval), strings hold bytes, generic trees
         are in range, dynamic tags fit 24 bits;
-      - size: 4 * vdepth v + length bytes + 8 <= 4 * FUEL, i.e.
+      - size, in either of two forms:
+        (D') on the BYTES alone: length bytes <= 11775 for a request / response message
+        (static depth 57 of the message type + 2 units per 8 bytes within FUEL = 3000; for
+        another root structure its own static depth DecTerm.bound) - [kmip_marshal = Ok]
+        already says that the encoder had enough fuel, and the decoder's result does not
+        depend on the fuel once it is enough (DecFuelProofs.v);
+        (D) on the value and the bytes: 4 * vdepth v + length bytes + 8 <= 4 * FUEL, i.e.
         vdepth v + 2 * (length bytes / 8) + 2 <= 3000, where [vdepth v] (EncFuel.v) is the
-        longest chain of encoder calls for [v] (nesting + position in slices / field lists).
-        It implies length bytes < 12000 < 2^32, so no separate length hypothesis is needed. *)
+        longest chain of encoder calls for [v] (nesting + position in slices / field lists);
+        this form does not go through the decoder's termination bound.
+        Both imply length bytes < 12008 < 2^32, so no separate length hypothesis is needed. *)
 From Coq Require Import ZArith List Bool String.
-From KV Require Import Base Wire Cursor Schema SchemaSem Roundtrip KmipCodec RtExamples EncFuel EncFuelProofs EncRangeProofs KmipExec.
+From KV Require Import Base Wire Cursor Schema SchemaSem Roundtrip KmipCodec RtExamples DecSafe DecTerm
+  EncFuel EncFuelProofs EncRangeProofs DecFuelProofs KmipExec.
 From KVGen Require Import KmipSchema.
 Import ListNotations.
 Open Scope Z_scope.
@@ -80,6 +88,39 @@ Theorem C01_kmip_marshal_defined : forall root d v items st' f,
 Proof. exact kmip_marshal_defined. Qed.
 Print Assumptions C01_kmip_marshal_defined.
 
+(** A'. Fuel monotonicity of the typed DECODER, for ANY schema and reader format: a result
+    other than OutOfFuel is the result at every larger fuel. *)
+Theorem C01_dec_fuel_stable : forall (S : schema) OPS ATTRS OBJS (R : Type) (F : rawfmt R) f g st t tag c, (f <= g)%nat ->
+  dec_ty S OPS ATTRS OBJS F f st t tag c <> OutOfFuel ->
+  dec_ty S OPS ATTRS OBJS F g st t tag c = dec_ty S OPS ATTRS OBJS F f st t tag c.
+Proof. intros S OPS ATTRS OBJS R F. exact (dec_ty_stable S OPS ATTRS OBJS F). Qed.
+Print Assumptions C01_dec_fuel_stable.
+
+(** D'. The same round trip with the size hypothesis on the BYTES alone (decoder stability +
+    the termination bound of C02Term): request / response messages up to 11775 bytes ... *)
+Theorem C01_kmip_message_marshal_unmarshal : forall root d v bytes sc fc,
+  (root = "kmip.RequestMessage" \/ root = "kmip.ResponseMessage")%string ->
+  find_tdef kmip_schema root = Some d ->
+  kmip_marshal root v = Ok bytes ->
+  conf_ty kmip_schema kmip_ops kmip_attrs kmip_objs fc None (TNamed root) (t_deftag d) v = Some sc ->
+  val_ranged kmip_schema (TNamed root) v = true ->
+  len bytes <= 11775 ->
+  kmip_unmarshal root bytes = Ok v.
+Proof. exact kmip_message_marshal_unmarshal. Qed.
+Print Assumptions C01_kmip_message_marshal_unmarshal.
+
+(** ... and any decodable root structure of the schema, with the static depth of its type. *)
+Theorem C01_kmip_marshal_unmarshal_bytes : forall root d v bytes sc fc,
+  find_tdef kmip_schema root = Some d ->
+  kmip_marshal root v = Ok bytes ->
+  conf_ty kmip_schema kmip_ops kmip_attrs kmip_objs fc None (TNamed root) (t_deftag d) v = Some sc ->
+  val_ranged kmip_schema (TNamed root) v = true ->
+  decodable kmip_schema (TNamed root) = true ->
+  (bound kmip_schema kmip_ops kmip_attrs kmip_objs (TNamed root) + 2 * (List.length bytes / 8) <= FUEL)%nat ->
+  kmip_unmarshal root bytes = Ok v.
+Proof. exact kmip_marshal_unmarshal_bytes. Qed.
+Print Assumptions C01_kmip_marshal_unmarshal_bytes.
+
 (** Non-vacuity: the request message of RtExamples.v (credential in the header, an Import batch
     item carrying a symmetric key with attributes, a message extension: call chain 50, 768
     bytes) satisfies every hypothesis by computation, so the theorem applies to it. *)
@@ -96,6 +137,10 @@ Proof.
   split; [vm_compute; reflexivity|]. split; [vm_compute; reflexivity|]. split; [vm_compute; reflexivity|].
   split; [vm_compute; reflexivity|]. split; [vm_compute; reflexivity|]. split; vm_compute; reflexivity.
 Qed.
+
+Example C01_exec_example_bytes :
+  exists bytes, kmip_marshal "kmip.RequestMessage" ex_message = Ok bytes /\ len bytes <= 11775.
+Proof. eexists. split; [vm_compute; reflexivity | vm_compute; discriminate]. Qed.
 
 Example C01_exec_example_roundtrip :
   exists bytes, kmip_marshal "kmip.RequestMessage" ex_message = Ok bytes /\
